@@ -96,7 +96,7 @@ def sterm(ex, st, v):
 
 
 def client_exec(ir, loop_bound=6, budget_s=200, max_paths=20000):
-    ex = Exec(ir, loop_bound=loop_bound, max_paths=max_paths); ex.deadline = time.time() + budget_s
+    ex = Exec(ir, loop_bound=loop_bound, max_paths=max_paths); ex.deadline = time.process_time() + budget_s
     lib.install(ex, *lib.ALL)
     first = re.compile('^\\(?\\*?' + re.escape(KM) + '/')
     ex.inline = lambda name: bool(first.search(name))
